@@ -283,9 +283,9 @@ func (s *JSONDB) newFile(dagFile string, t time.Time, requestID string) (string,
 func (s *JSONDB) latestToday(dagFile string, day time.Time, latestStatusToday bool) (string, error) {
 	var pattern string
 	if latestStatusToday {
-		pattern = fmt.Sprintf("%s.%s*.*.dat", s.prefixWithDirectory(dagFile), day.Format(dateFormat))
+		pattern = fmt.Sprintf("%s.%s*.*.dat", globEscape(s.prefixWithDirectory(dagFile)), day.Format(dateFormat))
 	} else {
-		pattern = fmt.Sprintf("%s.*.*.dat", s.prefixWithDirectory(dagFile))
+		pattern = fmt.Sprintf("%s.*.*.dat", globEscape(s.prefixWithDirectory(dagFile)))
 	}
 	matches, err := filepath.Glob(pattern)
 	if err != nil || len(matches) == 0 {
@@ -307,7 +307,13 @@ func (s *JSONDB) latest(pattern string, n int) []string {
 }
 
 func (s *JSONDB) globPattern(dagFile string) string {
-	return s.prefixWithDirectory(dagFile) + "*" + extDat
+	return globEscape(s.prefixWithDirectory(dagFile)) + "*" + extDat
+}
+
+// globEscape escapes the glob metacharacters of a literal path so that it
+// can be embedded in a pattern (DAG file names may contain them).
+func globEscape(path string) string {
+	return strings.NewReplacer(`\`, `\\`, `*`, `\*`, `?`, `\?`, `[`, `\[`).Replace(path)
 }
 
 func (s *JSONDB) prefixWithDirectory(dagFile string) string {
